@@ -307,8 +307,12 @@ func checkC14(c *Ctx) {
 		if sel == nil {
 			r.Unk("C14.5", "selectPhantomImplHkdf: address construction", f.Pos(), fnName(f), "call to selectAddrFromSubnetOffset not found")
 		} else {
-			gmax := guardedM(f, sel, func(cnd string, pol bool) bool { return !pol && strings.Contains(cnd, ".max.Cmp(") && strings.HasSuffix(cnd, " < 0)") })
-			gmin := guardedM(f, sel, func(cnd string, pol bool) bool { return !pol && strings.HasPrefix(cnd, "(0 < ") && strings.Contains(cnd, ".min.Cmp(") })
+			gmax := guardedM(f, sel, func(cnd string, pol bool) bool {
+				return !pol && strings.Contains(cnd, ".max.Cmp(") && strings.HasSuffix(cnd, " < 0)")
+			})
+			gmin := guardedM(f, sel, func(cnd string, pol bool) bool {
+				return !pol && strings.HasPrefix(cnd, "(0 < ") && strings.Contains(cnd, ".min.Cmp(")
+			})
 			r.Check(gmax && gmin, "C14.5", "selectPhantomImplHkdf: subnet chosen only if min <= id <= max", sel.Pos(), fnName(f), "dominated by both comparisons",
 				"the subnet match does not test the id against both bounds: an id outside the subnet's interval selects it and the offset lands in another subnet")
 			// offset = id - min
